@@ -357,9 +357,15 @@ class BPTC19696:
             is_reserved,
             is_hamming,
         ) in BPTC19696.INTERLEAVING_INDICES.items():
-            bits[data_index if deinterleaved else interleave_index] = table[row - 1][
-                column
-            ]
+            if row == 0:
+                # R(3) is not part of the 13x15 matrix, keep it as received
+                continue
+            # deinterleaved input is in the ordering deinterleave_all_bits() produces
+            bits[
+                BPTC19696.FULL_INTERLEAVING_MAP[interleave_index]
+                if deinterleaved
+                else interleave_index
+            ] = table[row - 1][column]
 
         return bits
 
